@@ -11,6 +11,7 @@ Ops (one case = one run of the state machine `Sentinel.System.step`):
 * `sys load|cpu <f:bits>`                    `system_metric.SetSystemLoad / SetSystemCpuUsage`
 * `entry <id> <res> in|out|default <batch|->`  => `pass` | `block sys`   (`default`: no WithTrafficType option = outbound; `-`: no WithBatchCount option = 1)
 * `exit <id>`
+* `remod <i> <metric>/<strategy>/<f:bits>`    element `i` of the slice loaded last is changed in place and the same slice is loaded again
 * `stat`  => the inbound aggregates the slot reads
 -/
 namespace Sentinel.Drv.C07
@@ -69,21 +70,42 @@ def statLine (spec : Bool) (s : St Float) : String :=
   let maxavg := v.maxComplete.toFloat * vS.toFloat / vI.toFloat * 1000.0
   s!"[p={v.pass} b={blk} c={v.complete} conc={v.conc} avgrt={fbits (fA.avgRt (avgRtOf v))} minrt={fbits v.minRt.toFloat} qps={fbits (fA.qps v.pass)} maxavg={fbits maxavg}]"
 
-def stepLine (spec : Bool) (s : St Float) (ts : List String) (_ : String) : St Float × Option String :=
+/-- driver state: the machine state plus the caller's last rule slice (for `remod`) -/
+structure DSt where
+  s : St Float := init
+  raw : List (Rule Float) := []
+
+/-- `remod <i> <rule>`: the caller changes element `i` of the slice it loaded last **in place** and calls
+    `LoadRules` with the same slice again — for the property this is a load of the changed list -/
+def stepLine (spec : Bool) (d : DSt) (ts : List String) (_ : String) : DSt × Option String :=
+  let s := d.s
   match ts with
-  | ["stat"] => if s.started then (s, some (statLine spec s)) else (s, some "bad-op")
+  | ["stat"] => if s.started then (d, some (statLine spec s)) else (d, some "bad-op")
+  | ["remod", i, r] =>
+    match i.toNat?, parseRule? r with
+    | some i, some r =>
+      -- only defined where it is a plain reload for the property: the object was in force and stays valid
+      -- (`LoadRules` compares with the caller's own slice, so an object that was dropped as invalid, or becomes
+      -- invalid, is not revalidated by such a reload — rule-manager territory, C13, not C07)
+      if (d.raw[i]?.map (validRule fA)) == some true && validRule fA r then
+        let raw := d.raw.set i r
+        ({ s := (step fA spec s (.load raw)).1, raw := raw }, none)
+      else (d, some "bad-op")
+    | _, _ => (d, some "bad-op")
   | _ =>
     match parseOp? ts with
-    | none => (s, some "bad-op")
+    | none => (d, some "bad-op")
     | some op =>
       let (s', r) := step fA spec s op
-      (s', showRes r)
+      let raw := match op with | .load rs => rs | _ => d.raw
+      ({ s := s', raw := raw }, showRes r)
 
 /-- `explain` mode (measurement only, never compared): the code-shaped run, each inbound decision annotated
     with the metric types of the violated loaded rules and with the role of the BBR capacity term
     (`over`/`under` when some BBR load/cpu rule has its reading above the trigger, `na` otherwise) -/
-def explainLine (s : St Float) (ts : List String) (ln : String) : St Float × Option String :=
-  let (s', r) := stepLine false s ts ln
+def explainLine (d : DSt) (ts : List String) (ln : String) : DSt × Option String :=
+  let s := d.s
+  let (s', r) := stepLine false d ts ln
   match parseOp? ts, r with
   | some (.entry _ true _), some r =>
     if !s.started then (s', some r) else
@@ -99,7 +121,7 @@ def explainLine (s : St Float) (ts : List String) (ln : String) : St Float × Op
   | _, _ => (s', r)
 
 def run (mode : String) : IO Unit :=
-  if mode == "explain" then loop init explainLine
-  else loop init (stepLine (mode == "spec"))
+  if mode == "explain" then loop ({} : DSt) explainLine
+  else loop ({} : DSt) (stepLine (mode == "spec"))
 
 end Sentinel.Drv.C07
